@@ -776,7 +776,7 @@ def correspond(ctx, proof_ok=True):
             cm['r2'], cm['r1'] = rc('2:' + sc['run2d']), rc('1:' + sc['run1d'])
         header = HEADER + 'Definition sv : survey := %s.\nDefinition pl : list plrow := %s.\n' % (
             C.coq_list([file_term(fa) for fa in files]), C.coq_list(pl_rows))
-        cc = C.CoqCases(ctx.work, header, 'run_cases', shard=1000, timeout=300)
+        cc = C.CoqCases(ctx.work, header, 'run_cases', shard=1000, timeout=1500)
         terms = [call_term(cm, res) for cm, res in zip(sc['calls'], results[k])]
         # which spPlate files each successful call opened (path model)
         fidx = [j for j, (cm, res) in enumerate(zip(sc['calls'], results[k]))
